@@ -485,6 +485,11 @@ func (c *Ctx) execInstr(s *State, in ssa.Instruction, out *[]retPath) []*State {
 		h := c.getHeap(s, "ChanClosed", ArrSort(SInt, SBool))
 		c.setHeapAt(s, "ChanClosed", Store(h, r, False), r)
 		c.setVal(s, x, Sc{T: r})
+		if c.scout == 0 {
+			// event: makechan(capacity) -> channel   (a rendezvous protocol depends on the capacity)
+			s.seq++
+			s.trace = append(s.trace, Event{Name: "makechan", Args: []Value{c.val(s, x.Size)}, ArgT: []types.Type{types.Typ[types.Int]}, Res: Sc{T: r}, ResT: x.Type(), PC: len(s.pc), Pos: posOf(c.eng.prog, x), Seq: s.seq})
+		}
 	case *ssa.MakeClosure:
 		var binds []Value
 		for _, b := range x.Bindings {
